@@ -27,6 +27,17 @@ def ops_for(declared, flavour):
                 out.append(("S %s=%s" % (y, x), [ex(asg(var(y), var(x)))], []))
                 out.append(("E %s#=%s" % (y, x), [ex(asg(idx(var(y), k1), var(x)))], []))
                 out.append(("SL %s=[%s]" % (y, x), [ex(asg(var(y), lit))], []))
+        # a collection handed to a storing method (后增 / 写入) is copied in, like an element assignment
+        for y in declared:
+            if x != y:
+                if flavour == "list":
+                    out.append(("A %s<<%s" % (y, x), [ex(mcall(var(y), "@append", var(x)))], []))
+                else:
+                    out.append(("A %s<<%s" % (y, x), [ex(mcall(var(y), "@put", s("p"), var(x)))], []))
+        if flavour == "list":
+            out.append(("A %s<<%s" % (x, x), [ex(mcall(var(x), "@append", var(x)))], []))
+        else:
+            out.append(("A %s<<%s" % (x, x), [ex(mcall(var(x), "@put", s("p"), var(x)))], []))
         # mutations through x
         out.append(("m1 %s" % x, [ex(asg(idx(idx(var(x), k1), num(1)), num(9)))], []))
         out.append(("m2 %s" % x, [ex(mcall(idx(var(x), k1), "@append", num(7)))], []))
@@ -124,5 +135,6 @@ def run(ctx):
                     "mutation through a 遍历 loop variable; every variable is displayed after every step. Exhaustive for <= %d steps, seeded random for 3-5 "
                     "steps; plus object sharing / default-copy / literal-freshness programs. The ZnEval heap machine (deep copy on bind, reference "
                     "objects; invariant FreshVars in every state) predicts every displayed snapshot" % ex_len, **stats)
-    return cov, ["parameter passing and 得到 share the value with the caller (not demanded by the property; the spec shares them too)",
+    return cov, ["a list / dictionary handed to 后增 / 前增 / 写入 is stored as a copy (repo fix 52e2856; before it the methods aliased their argument and a collection could contain itself)",
+                 "parameter passing and 得到 share the value with the caller (not demanded by the property; the spec shares them too)",
                  "sharing is observed through displayed values after every step, not through pointer identity"]
